@@ -4,6 +4,8 @@ CONSTANT Receivers = {"r1"}
 CONSTANT WithError = TRUE
 CONSTANT WithCallback = TRUE
 CONSTANT WithLocalClose = FALSE
+CONSTANT EndCallbackRaises = FALSE
+CONSTANT Fix_GuardEndmarkerCallback = TRUE
 CONSTANT Fix_CloseFlagFirst = TRUE
 INVARIANT OrderedDelivery
 INVARIANT CallbackOrdered
@@ -11,6 +13,7 @@ INVARIANT EofMeansComplete
 INVARIANT ObserverSeesClosed
 INVARIANT ErrorOnce
 INVARIANT EndmarkerOnce
+INVARIANT ReceiverThreadSurvives
 PROPERTY WaitcloseReturns
 CHECK_DEADLOCK FALSE
 PROPERTY ReceiversFinish
